@@ -36,7 +36,7 @@ struct Bank { Fx slots[2]; static const rtosc::Ports ports; };
 struct Synth {
     int preset, gain; float cutoff; int env[3];
     bool Poscenabled; Osc osc;                 // rRecur + rEnabledBy (sibling toggle)
-    Osc voices[3]; bool Pvoices;               // rRecurs
+    Osc voices[12]; bool Pvoices;              // rRecurs (two-digit indices)
     bool Pfx; Fx *fx;                          // rRecurp: the object exists only while Pfx is true
     int mode; int depth;                       // depth declares rDepends(mode)
     bool Pbank; Bank *bank;                    // rRecurp over rRecurs: "/bank/slots1/kind" depends on "/Pbank" two levels up
@@ -118,7 +118,7 @@ inline const rtosc::Ports Synth::ports = {
     rToggle(Poscenabled, rDefault(false), "enables osc/"),
     rRecur(osc, rEnabledBy(Poscenabled), "oscillator, pruned while disabled"),
     rToggle(Pvoices, rDefault(true), "enables voices#3/"),
-    rRecurs(voices, 3, rEnabledBy(Pvoices), "voices"),
+    rRecurs(voices, 12, rEnabledBy(Pvoices), "voices"),
     {"Pfx::T:F", rProp(parameter) rDefault(false) rDoc("creates / destroys the effect object"), NULL,
         [](const char *m, rtosc::RtData &d) { Synth *o = (Synth *)d.obj; const char *a = rtosc_argument_string(m); if (*a) { bool on = *a == 'T'; if (on && !o->fx) o->fx = new Fx; if (!on && o->fx) { delete o->fx; o->fx = nullptr; } o->Pfx = on; d.broadcast(d.loc, on ? "T" : "F"); } else d.reply(d.loc, o->Pfx ? "T" : "F"); }},
     rRecurp(fx, rEnabledBy(Pfx), "effect, exists only while Pfx"),
@@ -212,7 +212,7 @@ inline const std::vector<Param> &synth_params() {
     P.push_back({"/Poscenabled", 1, 'T', [](void *o, int) { return vb(S(o)->Poscenabled); }, [](void *, int) { return vb(false); }, yes, 0, 1, 0, {}});
     osc_params(P, "/osc/", [](void *o) { return &S(o)->osc; }, [](void *o) { return S(o)->Poscenabled; });
     P.push_back({"/Pvoices", 1, 'T', [](void *o, int) { return vb(S(o)->Pvoices); }, [](void *, int) { return vb(true); }, yes, 0, 1, 0, {}});
-    for (int i = 0; i < 3; i++) osc_params(P, "/voices" + std::to_string(i) + "/", [i](void *o) { return &S(o)->voices[i]; }, [](void *o) { return S(o)->Pvoices; });
+    for (int i = 0; i < 12; i++) osc_params(P, "/voices" + std::to_string(i) + "/", [i](void *o) { return &S(o)->voices[i]; }, [](void *o) { return S(o)->Pvoices; });
     P.push_back({"/Pfx", 1, 'T', [](void *o, int) { return vb(S(o)->Pfx); }, [](void *, int) { return vb(false); }, yes, 0, 1, 0, {}});
     auto fxr = [](void *o) { return S(o)->Pfx && S(o)->fx; };
     P.push_back({"/fx/kind", 1, 'i', [](void *o, int) { return vi(S(o)->fx ? S(o)->fx->kind : 1); }, [](void *, int) { return vi(1); }, fxr, 0, 9, 0, {}});
